@@ -31,7 +31,8 @@ def classify(nn, site, atom, pol, dinfo):
     a = strip(atom)
     h = head(a)
     if h == "cmp":
-        op, x, y = a[1], strip(a[2]), strip(a[3])
+        from ..nnabs import unpartial
+        op, x, y = a[1], unpartial(a[2]), unpartial(a[3])
         if op in ("<", "<=", ">", ">=") and is_call(x, "builtins.len") and is_const(y) and isinstance(y[2], int) and nn.coll_space(q, x[2][0]) is not None:
             # candidate lists with fewer than two members hold no pair: kept iff len >= 2 (> 1); skipping len < 2 (<= 1) drops nothing
             kept_min = {(">", True): y[2] + 1, (">=", True): y[2], ("<", False): y[2], ("<=", False): y[2] + 1}.get((op, pol))
@@ -144,6 +145,19 @@ def check_site(r, rule, nn, site, mode, spaceA, spaceB, self_policy, equal_lengt
     where = wh(r, q, site.node)
     con = f"{q}#{label or site.kind}@{mname}"
     K = f"{label or site.kind}/{mname}"
+    # rapidfuzz: distance(a, b, score_cutoff=c) is the distance when it is <= c (and c + 1 otherwise): a reported value computed with a cut-off
+    # is the exact distance at a site that keeps the pair only when that same value is <= c
+    from ..nnabs import unpartial as _unp
+    d0 = _unp(site.d)
+    if head(d0) == "call" and strip(d0[1]) in (LEV, HAM) and len(d0[3]) == 1 and d0[3][0][0] == "score_cutoff" and len(d0[2]) == 2:
+        cut = strip_all(d0[3][0][1])
+        for atom_, pol_ in site.guards:
+            a_ = strip(atom_)
+            if head(a_) == "cmp" and a_[1] in ("<", "<=", ">", ">="):
+                sides = (_unp(a_[2]), _unp(a_[3]))
+                for me, other in (sides, sides[::-1]):
+                    if strip_all(me) == strip_all(d0) and strip_all(other) == cut:
+                        site.d = ("call", d0[1], d0[2], ())
     dinfo = nn.dist_of(q, site.d, None)
     if dinfo is None:
         raise AnalysisBroken(f"{q}:{site.line}: reported value {show(site.d, 100)} is outside the distance idiom list (mode {mname})")
